@@ -460,7 +460,9 @@ def crash_points(ctx, fam, kinds):
     # a stop inside step 1 before the first restart file exists leaves nothing to restart from: steps >= 2
     steps = sorted(c for c in kinds if c >= 2)
     if not ctx.quick:
-        return [(c, w) for c in steps for w in ("before_toml", "torn", "after_toml")] + [(1, "after_toml")]
+        # a torn last row can only be the row being written: accepted steps only
+        return [(c, w) for c in steps for w in ("before_toml", "torn", "after_toml")
+                if w != "torn" or kinds[c] != "rej"] + [(1, "after_toml")]
     z = [c for c in steps if kinds[c] == "acc2"][:3]
     a = [c for c in steps if kinds[c] == "acc"][:2]
     r = [c for c in steps if kinds[c] == "rej"][:1]
